@@ -213,6 +213,36 @@ def rule_r4(ctx):
                      f.path_lines(path))
         else:
             r.ob(f, "every non-terminal path re-arms (%d re-arm sites)" % len(via))
+        # the cool-down timer is the other half of the loop: when it fires (result 0) it accepts again, whatever else is
+        # going on at the endpoint (whether somebody waits for a connection right now is not its business: the connection
+        # is parked until somebody does)
+        for sl in f.calls(("nni_sleep_aio", "nng_sleep_aio")):
+            if len(sl.node["args"]) < 2 or sl.node["args"][1] is None:
+                continue
+            tfield = last_field(f.expand(sl.node["args"][1]))
+            cbs = [cb for (g0, aio_e, cb, arg, site) in prog.aio_callbacks() if last_field(aio_e) == tfield]
+            if not cbs:
+                raise AnalysisBroken("%s: callback of the cool-down timer %s not found" % (name, tfield))
+            g = prog.need(cbs[0], file)
+            gvia = G.positions([s_ for s_ in g.calls(rearm) if s_.node["fn"] not in ("nni_sleep_aio", "nng_sleep_aio")])
+            gcut = {}
+            for c_ in g.calls("nni_aio_result"):
+                for b_, (nz, z) in g.value_edges(c_).items():
+                    gcut[b_] = nz
+            for b_ in g.blocks.values():
+                cc = g.cond(b_.id) if b_.term and len(b_.succs) == 2 else None
+                if cc is not None:
+                    t_ = truth_of(cc, lambda n_: n_.get("k") == "mem" and n_["f"] == "closed")
+                    if t_:
+                        gcut[b_.id] = 0 if t_ > 0 else 1
+            gseen = g.reach((g.entry, 0), blocked=lambda b, i, e: (b, i) in gvia, edge_ok=lambda b, k: not (b in gcut and k == gcut[b]))
+            if not gvia or (g.exit, 0) in gseen:
+                ctx.fail(r, g, "cool-down timer fires without accepting again", g.line,
+                         "%s, the callback of the timer %s arms after a refused accept (out of descriptors / memory), can return "
+                         "with result 0 and the endpoint open without calling the accept again: after one transient failure "
+                         "the listener never accepts another connection" % (g.name, name))
+            else:
+                r.ob(g, "cool-down timer of %s accepts again whenever it fires" % name)
 
 
 def rule_r5(ctx):
